@@ -753,7 +753,7 @@ class SxIO:
 
     def read(self, n=-1):
         if self.pos is None:
-            return T("", self.b)
+            return b"" if self.b else ""
         total = self._length()
         pos = self.pos
         if n is None or (type(n) is int and n < 0):
@@ -763,7 +763,7 @@ class SxIO:
             stop = z3.simplify(z3.If(pos + nn < total, pos + nn, total))
         out = self._slice(pos, stop)
         self.pos = stop
-        return TStr(out, self.b)
+        return maybe_concrete(TStr(out, self.b))
 
     def close(self):
         self.closed = True
